@@ -47,6 +47,15 @@ def build_mem(d):
     for j in range(nw):
         wa, wd = pyrtl.Input(aw, 'wa%d' % j), pyrtl.Input(bw, 'wd%d' % j)
         en = d.get('enable', True)
+        if d.get('regdrive'):
+            # the port's address, data and enable come straight out of registers (no logic in between): the write uses the
+            # values the registers hold DURING the cycle, not the ones they latch at its end
+            ra_, rd_, re_ = pyrtl.Register(aw, 'wa_r%d' % j), pyrtl.Register(bw, 'wd_r%d' % j), pyrtl.Register(1, 'we_r%d' % j)
+            ra_.next <<= wa
+            rd_.next <<= wd
+            re_.next <<= pyrtl.Input(1, 'we%d' % j)
+            m[ra_] <<= pyrtl.MemBlock.EnabledWrite(rd_, re_)
+            continue
         if en in ('const0', 'const1') and j == 0:
             # a port whose enable is tied off (constant 0: never writes; constant 1: always writes)
             m[wa] <<= pyrtl.MemBlock.EnabledWrite(wd, pyrtl.Const(1 if en == 'const1' else 0, bitwidth=1))
@@ -141,6 +150,10 @@ def cases(tier, seed):
         out.append({'fam': 'MEM', 'aw': 2, 'bw': 3, 'nr': 1, 'nw': 1, 'k': 'two_sims', 'backend': be, 'K': 2})
         out.append({'fam': 'MEM', 'aw': 1, 'bw': 8, 'nr': 2, 'nw': 2, 'k': 'two_sims', 'backend': be, 'K': 2})
         out.append({'fam': 'MEM', 'aw': 2, 'bw': 3, 'nr': 1, 'nw': 1, 'k': 'two_sims', 'backend': be, 'K': 2, 'shared_map': True})
+    for be in BACKENDS:
+        for nw_ in (1, 2):
+            out.append({'fam': 'MEM', 'aw': 2, 'bw': 4, 'nr': 1, 'nw': nw_, 'regdrive': True, 'k': 'bmc_uninit', 'backend': be, 'K': 3})
+            out.append({'fam': 'MEM', 'aw': 2, 'bw': 4, 'nr': 1, 'nw': nw_, 'regdrive': True, 'k': 'step', 'backend': be})
     for nwc in (1, 2, 3):
         for be in BACKENDS:
             out.append({'fam': 'MEM', 'aw': 2, 'bw': 3, 'nr': 1, 'nw': nwc, 'cond': True, 'k': 'step', 'backend': be})
@@ -190,6 +203,14 @@ def array_oracle(case, v, arr, t):
             en = z3.And(v.inp('p%d' % j, t, 1) == 1, v.inp('we%d' % j, t, 1) == 1, *[v.inp('p%d' % q, t, 1) == 0 for q in range(j)])
         elif ek in ('const0', 'const1') and j == 0:
             en = z3.BoolVal(ek == 'const1')
+        elif case.get('regdrive'):
+            # the port is driven by registers that hold the previous cycle's inputs (reset state 0: no write in cycle 0)
+            if t == 0:
+                continue
+            en = v.inp('we%d' % j, t - 1, 1) == 1
+            new = z3.If(en, z3.Store(new, v.inp('wa%d' % j, t - 1, aw), v.inp('wd%d' % j, t - 1, bw)), new)
+            ens.append((en, v.inp('wa%d' % j, t - 1, aw)))
+            continue
         else:
             en = v.inp('we%d' % j, t, 1) == 1 if ek else z3.BoolVal(True)
         new = z3.If(en, z3.Store(new, v.inp('wa%d' % j, t, aw), v.inp('wd%d' % j, t, bw)), new)
@@ -426,7 +447,10 @@ def replay(cex):
                        % (t, trace['rdw'][t], arr.get(inp('wa0', t), 0)))
         for j in range(case['nw']):
             ek = case.get('enable', True)
-            if case.get('cond'):
+            if case.get('regdrive'):
+                if t > 0 and inp('we%d' % j, t - 1):
+                    arr[inp('wa%d' % j, t - 1)] = inp('wd%d' % j, t - 1)
+            elif case.get('cond'):
                 if inp('p%d' % j, t) and inp('we%d' % j, t) and not any(inp('p%d' % q, t) for q in range(j)):
                     arr[inp('wa%d' % j, t)] = inp('wd%d' % j, t)
             elif (ek == 'const1' and j == 0) or (not (ek in ('const0', 'const1') and j == 0) and (not ek or inp('we%d' % j, t))):
